@@ -191,6 +191,18 @@ theorem run_cycle_idle (env : Env) (l : Limits) (now : Int) (r : Rec) (dt wait :
     run env l now r (.cycle dt wait x dur lag :: rest) = .idle (now + dt) r.finished :: run env l (now + dt) r rest := by
   simp [run, h]
 
+theorem invocations_cons_att (a : Attempt) (rest : List Ev) :
+    (invocations (.att a :: rest)).length = (if a.out.invoked = true then 1 else 0) + (invocations rest).length := by
+  simp only [invocations, attempts_cons_att, List.filter_cons]
+  by_cases h : a.out.invoked = true
+  · rw [if_pos h, if_pos h, List.length_cons]; omega
+  · rw [if_neg h, if_neg h]; omega
+
+theorem invocations_cons_idle (t : Int) (d : Bool) (rest : List Ev) :
+    invocations (.idle t d :: rest) = invocations rest := rfl
+theorem invocations_cons_restarted (t : Int) (rest : List Ev) :
+    invocations (.restarted t :: rest) = invocations rest := rfl
+
 /-- A finished handler is never executed again, whatever happens. -/
 theorem attempts_run_finished (env : Env) (l : Limits) (steps : List Step) :
     ∀ (now : Int) (r : Rec), r.finished = true → attempts (run env l now r steps) = [] := by
